@@ -202,7 +202,8 @@ theorem reconnect_clears {s : Srv} {b : Bot} (hw : SrvWF s) (hc : Coupled s b)
 
 def cfg0 : Cfg :=
   { server := "irc.srv".toList, multiPrefix := true, uhnames := false, extJoin := false, chghost := true, whox := true,
-    botNick := "test".toList, botIdent := "limnoria".toList, botHost := "bot.host".toList, namesPerLine := 3 }
+    botNick := "test".toList, botIdent := "limnoria".toList, botHost := "bot.host".toList, namesPerLine := 3,
+    chantypes := "#&".toList, channellen := "50".toList }
 
 /-- is the bot's idea of mode letter `m` of channel `k` compatible with the server's (equal, or not known yet)? -/
 def modesAgreeAt (s : Srv) (b : Bot) (k : Str) (m : Char) : Bool :=
@@ -254,6 +255,21 @@ theorem param_mode_mispaired :
       "#c".toList).map (fun ch => (ch.ops, ch.modes)) = some (["5:10".toList], [('f', none)]) := by
   decide +kernel
 
+/-! ### RPL_ISUPPORT: what is read, what is hard-coded
+`recv_isupportEv` (Sim6): the server's 005 sets exactly CHANTYPES and CHANNELLEN in the modelled part of
+`state.supported`, and `Irc.isChannel` uses them (`Bot.isChannel`); the simulation theorem holds for every
+server whose CHANTYPES contains `#` and `&` and whose CHANNELLEN is at least 50 (`Cfg.valid`).  PREFIX, CHANMODES
+and CASEMAPPING are stored by the real code but never consulted: the three facts below hold whatever a 005 said. -/
+
+/-- CASEMAPPING is not consulted: nicks are always folded with the rfc1459 table, so on a server announcing
+`CASEMAPPING=ascii` the distinct nicks `a[` and `a{` are one nick to the bot -/
+theorem casemapping_hardcoded : strEqual "Nick[A]~".toList "nICK{a}^".toList = true := by decide +kernel
+
+/-- PREFIX is not consulted: `&` (admin with `PREFIX=(qaohv)~&@%+`) and `~` (owner) in a NAMES item count as op -/
+theorem prefix_hardcoded :
+    (Chan.empty.addUser "&x".toList).ops = ["x".toList] ∧ (Chan.empty.addUser "~y".toList).ops = ["y".toList] := by
+  decide +kernel
+
 /-! ### non-vacuity -/
 
 /-- a history that meets every hypothesis of `view_refines_partial` and exercises JOIN with burst, a case-only
@@ -268,7 +284,7 @@ def sampleRun : List Act :=
    .nick "test".toList "Test2".toList,
    .kick [] "#chan".toList ["bob".toList, "TEST2".toList] "bye".toList]
 
-example : cfg0.valid = true ∧ cfg0.multiPrefix = true := by decide
+example : cfg0.valid = true ∧ cfg0.multiPrefix = true := by decide +kernel
 example : ∀ a ∈ sampleRun, a.ok := by
   intro a ha
   simp only [sampleRun, List.mem_cons, List.not_mem_nil, or_false] at ha
